@@ -1,4 +1,5 @@
 """C02 — queued operations survive crashes exactly once (partial)."""
+import re
 from sa import names as N
 from sa.prog import (Site, Slice, TERM, callee_of, ok_sites, op_local, op_place, op_const, outcome_arms, in_arm,
                      lock_acquisitions, lock_states, return_sites, site_must_perform)
@@ -41,6 +42,21 @@ def norm_ty(t):
     return t
 
 
+def _record_writer(P):
+    """The private function of Wal through which the public append_* methods write a record (today: append_entry): the non-public
+    function of index::wal that every public `Wal::append_*` calls with a constant type byte."""
+    pubs = [f for q, f in P.fns.items() if q.startswith(N.WAL + "::append_") and f.vis == "Public" and f.kind != "closure"]
+    cands = {}
+    for f in pubs:
+        for b, t in f.calls():
+            g = P.fns.get(callee_of(t))
+            if g is not None and g.path.startswith("searchlite_core::index::wal::") and g.vis != "Public" and len(t["args"]) >= 2 and \
+                    any((op_const(a) or {}).get("int") is not None for a in t["args"][1:]):
+                cands.setdefault(g.path, set()).add(f.path)
+    best = [q for q, callers in cands.items() if len(callers) == len(pubs) and len(pubs) >= 2]
+    return P.fns[best[0]] if len(best) == 1 else P.fn(N.WAL + "::append_entry")
+
+
 def r02a(ctx, P):
     rid = "R02.a"
     ctx.rule(rid, "AGREE: the record-type byte written by each Wal::append_* (constant argument of append_entry) equals the byte "
@@ -48,9 +64,9 @@ def r02a(ctx, P):
                   "writer's CRC covers type byte + payload in one update and the reader feeds type byte then payload")
     adt = P.adts.get(WALENTRY)
     rep = find_replay(P)
-    app = P.fn(N.WAL + "::append_entry")
+    app = _record_writer(P)
     if not (ctx.anchor(rid, adt, "WalEntry enum") and ctx.anchor(rid, rep, "wal replay function") and
-            ctx.anchor(rid, app, "Wal::append_entry")):
+            ctx.anchor(rid, app, "the record writer behind Wal::append_* (append_entry)")):
         return None
     ctx.saw(rep)
     ctx.saw(app)
@@ -173,6 +189,12 @@ def r02a(ctx, P):
                         pl_ = op_place(d_["rv"]["a"])
                         if pl_ and any(isinstance(e, dict) and "index" in e for e in pl_["p"]):
                             out.add(l_)
+                        elif pl_ and pl_["p"] == ["deref"]:
+                            # `*data.get(i)?`: a byte read through the reference slice::get handed out, out of the log buffer
+                            srcs_ = Slice(rep, through_all_calls=True).sources({"cp": {"l": pl_["l"], "p": []}})
+                            if any(x_[0] == "call" and re.search(r"slice::<impl \[T\]>::get$", callee_of(x_[2])) for x_ in srcs_) and \
+                                    any(x_[0] == "call" and x_[2]["callee"] == N.S_READ_TO_END for x_ in srcs_):
+                                out.add(l_)
             return out
         type_bytes = byte_reads(type_local)
         first_is_type = any(s[0] == "agg" and s[3].get("ak") == "array" and any(op_local(o) == type_local or
@@ -302,6 +324,62 @@ def _tail(c):
     return c.rsplit("::", 1)[1] if "::" in c else c
 
 
+def _r02c_split_form(ctx, P, rid):
+    """`let last = entries.iter().rposition(|e| matches!(e, Commit)); match last { Some(i) => entries.split_off(i + 1), None => entries }`:
+    the pending list is what follows the LAST commit marker."""
+    adt = P.adts.get(WALENTRY)
+    if adt is None:
+        return False
+    commit_idx = [i for i, v in enumerate(adt["variants"]) if v["name"] == "Commit"][0]
+    for p, f in sorted(P.fns.items()):
+        if not p.startswith("searchlite_core::index::wal::") or f.kind == "closure" or is_test_or_bench(f):
+            continue
+        sl = Slice(f, through_all_calls=True)
+        rpos = [(b, t) for b, t in f.calls() if callee_of(t).endswith(("::rposition", "Iterator::rposition"))]
+        splits = [(b, t) for b, t in f.calls() if callee_of(t).endswith("Vec::<T, A>::split_off") and WALENTRY in f.local_ty(op_local(t["args"][0]) or 0)]
+        if not rpos or not splits:
+            continue
+        ctx.saw(f)
+        rb, rt = rpos[0]
+        # the predicate is `is Commit`
+        is_commit = False
+        for x in sl.sources(rt["args"][1]):
+            if x[0] == "agg" and x[3].get("closure") and P.fn(x[3]["closure"]) is not None:
+                h = P.fn(x[3]["closure"])
+                for hb in h.reachable():
+                    ht = h.blocks[hb]["term"]
+                    if ht["k"] != "switch":
+                        continue
+                    for y in Slice(h).sources(ht["on"]):
+                        if y[0] == "discr":
+                            vals = dict(zip(ht["values"], ht["targets"]))
+                            tg = vals.get(commit_idx)
+                            if tg is not None:
+                                # the Commit arm yields true, every other arm false
+                                tv = {(op_const(d["rv"]["a"]) or {}).get("int") for d in h.defs().get(0, []) if d["k"] == "assign" and
+                                      d["rv"]["k"] == "use" and h.dominates_block(tg, d["b"])}
+                                ov = {(op_const(d["rv"]["a"]) or {}).get("int") for d in h.defs().get(0, []) if d["k"] == "assign" and
+                                      d["rv"]["k"] == "use" and not h.dominates_block(tg, d["b"])}
+                                is_commit = tv == {1} and ov == {0}
+        sb, st = splits[0]
+        src = Slice(f).sources(st["args"][1])
+        plus_one = any(x[0] == "binop" and x[1].startswith("Add") for x in src) and any(x[0] == "const" and x[1].get("int") == 1 for x in src) and \
+            any(x[0] == "call" and x[1] == rb for x in sl.sources(st["args"][1]))
+        same_list = bool(Slice(f).locals(st["args"][0]) & Slice(f).locals(rt["args"][0])) or \
+            bool({l for l in sl.locals(st["args"][0]) if f.locals[l].get("name")} & {l for l in sl.locals(rt["args"][0]) if f.locals[l].get("name")})
+        from sa.prog import outcome_arms as _oa
+        arms = _oa(f, Site(f, rb))
+        in_some = any(f.dominates_block(a, sb) for a in arms["ok"])
+        okf = is_commit and plus_one and same_list and in_some
+        ctx.ob(rid, "%s:%s:commit-clears" % (rid, f.short), okf,
+               "the pending list is what follows the last Commit record (rposition + split_off(i + 1))" if okf else
+               "the pending list is not `everything after the LAST Commit record` (%s)" % (
+                   "predicate is not `is Commit`" if not is_commit else "split point is not last commit + 1" if not plus_one else
+                   "another list is split" if not same_list else "split is not on the found arm"), Site(f, sb).loc())
+        return True
+    return False
+
+
 def r02c(ctx, P):
     rid = "R02.c"
     ctx.rule(rid, "ORDER: IndexWriter::new restores the queue from the log under the writer lock and handles every WalEntry "
@@ -372,7 +450,9 @@ def r02c(ctx, P):
             builds = any(s["k"] == "assign" and s["rv"]["k"] == "agg" and s["rv"].get("adt") == WALENTRY for b, i, s in f.stmts())
             if matches_entry and pushes_entry and not builds:
                 fold = f
-    if ctx.anchor(rid, fold, "pending-op fold in index::wal"):
+    if fold is None and _r02c_split_form(ctx, P, rid):
+        pass
+    elif ctx.anchor(rid, fold, "pending-op fold in index::wal"):
         ctx.saw(fold)
         okf = False
         where = None
